@@ -65,7 +65,7 @@ pub fn id_regex_pred(i: usize, b: &[u8; 4]) -> bool {
         _ => has(b"C\x00"),
     }
 }
-pub const PL_REGEX: [&str; 6] = ["^hello", "World$", "a.c", "[0-9]+", "foo|abc", "l{2}o w"];
+pub const PL_REGEX: [&str; 8] = ["^hello", "World$", "a.c", "[0-9]+", "foo|abc", "l{2}o w", " abc", "o $| a"];
 pub fn pl_regex_pred(i: usize, t: &str, ignore_case: bool) -> bool {
     let lower;
     let (t, ci) = if ignore_case {
@@ -81,7 +81,9 @@ pub fn pl_regex_pred(i: usize, t: &str, ignore_case: bool) -> bool {
         2 => b.windows(3).any(|w| w[0] == b'a' && w[2] == b'c' && w[1] != b'\n'),
         3 => b.iter().any(|c| c.is_ascii_digit()),
         4 => t.contains("foo") || t.contains("abc"),
-        _ => t.contains("llo w"),
+        5 => t.contains("llo w"),
+        6 => t.contains(" abc"),
+        _ => t.ends_with("o ") || t.contains(" a"),
     }
 }
 
@@ -231,7 +233,7 @@ pub fn dlf_expressible(f: &AbsFilter) -> bool {
             _ => false,
         }
         && match &f.payload {
-            Some(PayloadCrit::Text(s)) => !s.is_empty() && s.trim() == s,
+            Some(PayloadCrit::Text(s)) => !s.is_empty(),
             _ => true,
         }
         && (f.payload.is_some() || !f.ignore_case)
@@ -308,7 +310,8 @@ pub const APIDS: [&[u8; 4]; 12] = [b"APID", b"AP\0\0", b"SYS\0", b"ABCD", b"CTAP
 pub const ID_LITS_META: [&str; 2] = ["A.B", "A+B"];
 pub const TEXTS: [&str; 10] = ["", "hello world", "Hello World", "HELLO WORLD 42", "abc", "ABC", "x abc y", "foo bar 123", "a.c", "aXc"];
 pub const ID_LITS: [&str; 10] = ["ECU1", "ECU2", "EC", "E", "ABCD", "ABCDE", "APCT", "AP", "SYS", "ZZU1"];
-pub const PL_TEXTS: [&str; 7] = ["hello", "Hello", "abc", "a.c", "WORLD", "o w", "42"];
+/// the entries with blanks at an end tell a front-end that trims the criterion from one that keeps it ("abc" does not contain " abc")
+pub const PL_TEXTS: [&str; 11] = ["hello", "Hello", "abc", "a.c", "WORLD", "o w", "42", " abc", "abc ", "hello ", " "];
 
 /// verbose payload with one utf8 string argument
 pub fn verbose_string_payload(text: &str, big_endian: bool) -> Vec<u8> {
@@ -535,6 +538,16 @@ fn eval_filter(rep: &mut Report, f: &AbsFilter, msgs: &[(DltMessage, String)]) {
         }
     }
     rep.inc("evaluations");
+    if fe.dlf.is_some() && both[0] && both[1] {
+        let blank_edged = match &f.payload {
+            Some(PayloadCrit::Text(t)) => t.trim() != t,
+            Some(PayloadCrit::Regex(i)) => PL_REGEX[*i].trim() != PL_REGEX[*i],
+            None => false,
+        };
+        if blank_edged {
+            rep.inc("dlf_filters_with_blank_edged_payload_criterion");
+        }
+    }
     if both[0] && both[1] {
         rep.inc("nontrivial");
         let mut s = crit_sig(f);
